@@ -40,8 +40,9 @@ def main(argv=None):
             rc = 1
     for c, d in rep.get("code_deviations_modelled", {}).items():
         print("MODELLED-DEVIATION extra/%s %s: %s" % (a.name, c, d))
-    os.makedirs(os.path.join(core.ROOT, "extra_reports"), exist_ok=True)
-    with open(os.path.join(core.ROOT, "extra_reports", a.name + ".json"), "w") as f:
+    out_root = os.environ.get("VF_OUT_ROOT") or core.ROOT      # self-test runs against a scratch worktree keep their reports out of /verif
+    os.makedirs(os.path.join(out_root, "extra_reports"), exist_ok=True)
+    with open(os.path.join(out_root, "extra_reports", a.name + ".json"), "w") as f:
         json.dump(rep, f, indent=1, default=str)
     print("extra/%s tier=%s: %s" % (a.name, a.tier, json.dumps({k: rep[k] for k in rep if k in ("model", "replayed")})))
     return rc
